@@ -28,7 +28,7 @@ type family struct {
 
 var families = map[string]family{
 	"c01": {name: "c01", wFeedCall: 6, wFeedNote: 3, wFeedBatch: 8, wFeedInvalid: 4, wFeedReply: 1, wFeedRaw: 1, wGate: 12, wBuiltin: 1, wCancel: 2, wPush: 2, wSendFault: 1,
-		idPool: []string{"1", "2", "3", `"a"`, "4", "5"}, Ks: []int{1, 2, 3, 8}, push: []bool{false, false, true}, builtin: []bool{true, false}, steps: 18},
+		idPool: []string{"1", "2", "3", `"a"`, "4", "5", "9007199254740993", "1.0", `"x\/y"`}, Ks: []int{1, 2, 3, 8}, push: []bool{false, false, true}, builtin: []bool{true, false}, steps: 18},
 	"c02": {name: "c02", wFeedCall: 3, wFeedNote: 2, wFeedBatch: 8, wFeedInvalid: 12, wFeedReply: 5, wFeedRaw: 4, wFeedBytes: 14, wGate: 10, wBuiltin: 1, wPush: 3, wCbCtx: 1,
 		idPool: []string{"1", "2", `"a"`, "0", "-1", "1.5", "1e3", `""`, `"\u0031"`}, Ks: []int{1, 3}, push: []bool{false, true}, builtin: []bool{true, false}, steps: 20},
 	"c03": {name: "c03", wFeedCall: 5, wFeedNote: 8, wFeedBatch: 6, wFeedInvalid: 1, wGate: 12, wCancel: 1, wPush: 1, wBuiltin: 1,
@@ -36,7 +36,7 @@ var families = map[string]family{
 	"c06": {name: "c06", wFeedCall: 4, wFeedNote: 2, wFeedBatch: 10, wGate: 12, wCancel: 4, wBuiltin: 2, wPush: 2,
 		idPool: []string{"1", "2", "3", "4", "5", "6", "7", "8"}, Ks: []int{1, 2, 3, 5}, push: []bool{false, true}, builtin: []bool{true}, steps: 20},
 	"c07": {name: "c07", wFeedCall: 10, wFeedNote: 1, wFeedBatch: 5, wFeedInvalid: 2, wGate: 10, wCancel: 6, wBuiltin: 1, wSendFault: 2, wRestart: 2,
-		idPool: []string{"1", "2", `"a"`, `"1"`, `"2"`}, Ks: []int{1, 2, 4}, push: []bool{false}, builtin: []bool{true, false}, steps: 22},
+		idPool: []string{"1", "2", `"a"`, `"1"`, `"2"`, `"\u0041"`, "9007199254740993", "9007199254740992"}, Ks: []int{1, 2, 4}, push: []bool{false}, builtin: []bool{true, false}, steps: 22},
 	"c08": {name: "c08", wFeedCall: 6, wFeedNote: 5, wFeedBatch: 5, wFeedInvalid: 3, wFeedRaw: 2, wFeedReply: 1, wGate: 8, wCancel: 1, wStop: 3, wPush: 2, wFeedErr: 3, wRestart: 2, wSendFault: 2, wWait: 2,
 		idPool: []string{"1", "2", "3", "4"}, Ks: []int{1, 2, 4}, push: []bool{false, true}, builtin: []bool{true}, steps: 22},
 	"c09": {name: "c09", wFeedCall: 3, wFeedNote: 3, wFeedBatch: 2, wFeedReply: 10, wGate: 6, wStop: 1, wPush: 10, wCbCtx: 5, wFeedInvalid: 1, wRestart: 2,
@@ -631,6 +631,7 @@ func runServerScenario(t *testing.T, fam string, seed uint64, idx int, out *bufi
 	cfg := srvConfig{K: pick(g, f.Ks), push: pick(g, f.push), builtin: pick(g, f.builtin), unblock: g.chance(1, 2), methods: []string{"g"}}
 	cfg.rpclog = idx%2 == 1
 	cfg.closeErr = idx%5 == 2
+	cfg.timeoutErr = idx%4 >= 2
 	if scriptFor(fam, idx) != nil {
 		// the scripted histories need room for two handlers at once, and pushes
 		cfg.push = true
